@@ -5,12 +5,13 @@ CONSTANTS
   DevMultiDrop = TRUE
   DevIncomingDrop = TRUE
   DevManagedEmpty = TRUE
+  DevPollMultiLen = TRUE
   Part = "stream"
   Feat = {"multi"}
   Sizes = {1, 3}
   Caps = {1, 3}
   SockBuf = 2
-  MaxOff = 4
+  MaxOff = 3
   Dirs = {1}
   Conns = {1, 2}
   DgSocks = {"a"}
